@@ -701,6 +701,10 @@ class BaseCartesianData(BaseData, metaclass=abc.ABCMeta):
                 return
 
         self._pixel_aligned_data = pixel_aligned_data
+
+        # masks of slice selections are carried over through this information
+        _clear_mask_caches()
+
         if self.hub:
             msg = PixelAlignedDataChangedMessage(self)
             self.hub.broadcast(msg)
